@@ -22,6 +22,9 @@ type Script struct {
 type Options struct {
 	Digest bool // include the raw state digest in every step line
 	NoPost bool // omit the projected state (for bulk scenarios)
+	// Service, if set, creates the environment that executes actions of external services (OrcRelay: the real
+	// oracle service); it writes the lines of such an action itself
+	Service func(w *world.World, emit func(world.J)) (relay func(i int, a world.Act), closeFn func(), err error)
 }
 
 // Run executes the script on a fresh world and writes the trace to out.
@@ -57,8 +60,24 @@ func Run(s Script, base world.Cfg, opt Options, out io.Writer) (*world.World, er
 	if err := enc.Encode(first); err != nil {
 		return w, err
 	}
+	var relay func(int, world.Act)
 	for i, a := range s.Acts {
 		a["i"] = i + 1
+		if a.S("k") == "OrcRelay" && opt.Service != nil {
+			if relay == nil {
+				r, closeFn, err := opt.Service(w, func(j world.J) { _ = enc.Encode(j) })
+				if err != nil {
+					return w, err
+				}
+				defer closeFn()
+				relay = r
+			}
+			relay(i+1, a)
+			if w.Dead != "" {
+				break
+			}
+			continue
+		}
 		o := w.Exec(a)
 		line := world.J{"k": "step", "i": i + 1, "act": world.J{"k": a.S("k")}, "res": o}
 		if !opt.NoPost {
